@@ -242,6 +242,31 @@ def ircWrap (chunks : List Str) (s : Str) (length : Nat) : WrapRes :=
     | .ok lines => .ok (processLines none lines)
     | e => e
 
+/-- number of bytes `ctx.start` puts in front of a chunk -/
+def Ctx.startCost (c : Ctx) : Nat := blen (colorPrefix c) + b2n c.underline + b2n c.reverse + b2n c.bold
+
+/-- `true` when, along the loop of `ircutils.wrap`, re-opening the previous context and closing the new
+one never costs more than the `overhead` that was reserved (the maximum of `size()` over the parse of
+the whole text).  It can fail because the contexts are recomputed by re-parsing the *produced* lines:
+a cut inside a `\x03NN` sequence, or a re-opened colour code running into the digits / comma that
+follow, give a context the original text never had. -/
+def coherentFrom (overhead : Nat) : Option Ctx → List Str → Bool
+  | _, [] => true
+  | ctx, l :: ls =>
+    let l' := match ctx with
+      | none => l
+      | some c => c.start l
+    let c' := (parse l').ctx
+    decide ((match ctx with
+      | none => 0
+      | some c => c.startCost) + b2n c'.active ≤ overhead) && coherentFrom overhead (some c') ls
+
+/-- the coherence condition for `ircutils.wrap(s, length)` -/
+def coherent (chunks : List Str) (s : Str) (length : Nat) : Bool :=
+  match byteTextWrap chunks (length - (parse s).maxSize) with
+  | .ok lines => coherentFrom (parse s).maxSize none lines
+  | _ => true
+
 /-! ## callbacks._makeReply -/
 
 /-- everything `_makeReply` and the length arithmetic of `reply` look at -/
